@@ -254,6 +254,25 @@ pub fn c20_case(c: &DbCase) -> CaseResult {
     Ok(o)
 }
 
+pub fn db_strategy() -> BoxedStrategy<DbCase> {
+    let mut cfg = WorldCfg::default();
+    cfg.invalid_pct = 0;
+    cfg.n_contracts = 2..=4;
+
+    let cfg2 = cfg.clone();
+    let op = prop_oneof![
+        3 => (0u8..63).prop_map(DbOp::Basic),
+        3 => (0u8..16, 0u8..7).prop_map(|(a, k)| DbOp::Storage(a, k)),
+        2 => (0u8..16).prop_map(DbOp::Code),
+        2 => (0u8..63).prop_map(DbOp::HasStorage),
+        2 => (0u8..12).prop_map(DbOp::HasStorage),
+        5 => any::<u8>().prop_map(DbOp::Again),
+        3 => (0u16..300).prop_map(DbOp::BlockHash),
+        2 => world::tx_spec(&cfg2).prop_map(DbOp::Commit),
+    ];
+    (world_case(&cfg), any::<bool>(), prop::collection::vec((0u16..300, any::<u8>()), 0..12), prop::collection::vec(op, 1..28)).prop_map(|(world, inline_code, hashes, ops)| DbCase { world, inline_code, hashes, ops }).boxed()
+}
+
 pub fn c20(ctx: &mut Ctx) {
     let n = ctx.tier.pick(100_000, 3_000_000);
     let mut cfg = WorldCfg::default();
@@ -262,20 +281,7 @@ pub fn c20(ctx: &mut Ctx) {
     ctx.run_cases(
         "wrappers",
         "random underlying data (generated accounts, storage, codes with/without inline code, block hashes around a 300-block window) and sequences of queries (basic, storage, code_by_hash, has_storage, block_hash) interleaved with commits of EVM-produced outputs, asked of CacheDB<ModelDB>, CacheDB<&ModelDB>, the DatabaseRef view of CacheDB, State<ModelDB> with and without bundle, StateDBBox, WrapDatabaseRef over owned/&/Arc/Box data, &mut and Box databases, DatabaseComponents (owned, &, Arc) and EmptyDB; oracle: the answer of the plain data plus the committed changes; non-trivial = a key is re-queried after a commit",
-        || {
-            let cfg2 = cfg.clone();
-            let op = prop_oneof![
-                3 => (0u8..63).prop_map(DbOp::Basic),
-                3 => (0u8..16, 0u8..7).prop_map(|(a, k)| DbOp::Storage(a, k)),
-                2 => (0u8..16).prop_map(DbOp::Code),
-                2 => (0u8..63).prop_map(DbOp::HasStorage),
-                2 => (0u8..12).prop_map(DbOp::HasStorage),
-                5 => any::<u8>().prop_map(DbOp::Again),
-                3 => (0u16..300).prop_map(DbOp::BlockHash),
-                2 => world::tx_spec(&cfg2).prop_map(DbOp::Commit),
-            ];
-            (world_case(&cfg), any::<bool>(), prop::collection::vec((0u16..300, any::<u8>()), 0..12), prop::collection::vec(op, 1..28)).prop_map(|(world, inline_code, hashes, ops)| DbCase { world, inline_code, hashes, ops })
-        },
+        db_strategy,
         n,
         c20_case,
     );
